@@ -3,7 +3,7 @@
    chunk always fails that chunk's CRC check; an altered length byte re-frames the stream and is
    accepted only on an explicit 32-bit CRC coincidence (which no argument about the code can
    exclude: the universal statement of the property is true up to that 2^-32 event). *)
-From PNA Require Import Base Crc32 Chunk ArchiveRun BaseFacts Crc32Facts ChunkFacts.
+From PNA Require Import Base Crc32 Codec Chunk Archive Entry ArchiveRun BaseFacts Crc32Facts ChunkFacts ArchiveFacts EntryFacts.
 Open Scope N_scope.
 
 Theorem C05_crc32_detects_single_byte :
@@ -41,3 +41,32 @@ Print Assumptions C05_altered_length_byte_needs_crc_coincidence.
 Theorem C05_slice_reader_same : forall bs, read_chunk_slice bs = read_chunk_stream bs.
 Proof. exact read_chunk_slice_eq. Qed.
 Print Assumptions C05_slice_reader_same.
+
+(* ---- archive level ------------------------------------------------------------------------
+   For every archive the writer model produces (any part number, any list of well-formed entries),
+   every offset >= 8 outside a length field and every non-zero mask: the read ends in InvalidData and
+   the entries returned before it are EXACTLY the entries that lie wholly before the altered byte.
+   (in_length_field: the first 4 bytes of a chunk; for those see the coincidence theorem above.) *)
+Theorem C05_alter_detected :
+  forall num es i m, Forall wf_entry es -> num < 2 ^ 32 -> 0 < m < 256 ->
+  (8 <= i < length (write_raw_archive num es))%nat -> in_length_field num es i = false ->
+  match raw_entries read_chunk_stream (xor_at (write_raw_archive num es) i m) with
+  | Err InvalidData => (i < 28)%nat
+  | Ok (got, FinErr InvalidData, _) => (28 <= i)%nat /\ got = firstn (entries_complete_within num es i) es
+  | _ => False
+  end.
+Proof. exact alter_detected. Qed.
+Print Assumptions C05_alter_detected.
+
+Theorem C05_alter_signature :
+  forall num es i m, (i < 8)%nat -> 0 < m < 256 ->
+  forall rd, raw_entries rd (xor_at (write_raw_archive num es) i m) = Err InvalidData.
+Proof. exact alter_signature_written. Qed.
+Print Assumptions C05_alter_signature.
+
+(* the same for the slice reader and the structured-entry iterator: they are the same functions *)
+Theorem C05_all_readers_same :
+  forall bs, (raw_entries read_chunk_slice bs = raw_entries read_chunk_stream bs /\ chunks_slice bs = chunks_stream bs)
+             /\ entries read_chunk_slice bs = entries read_chunk_stream bs.
+Proof. exact (fun bs => conj (stream_slice_agree bs) (entries_stream_slice_agree bs)). Qed.
+Print Assumptions C05_all_readers_same.
